@@ -86,7 +86,7 @@ let () =
           let flags = ref 0 and width = ref 80 and cmds = ref [] and args = ref [] and again = ref 0 in
           let t1 = ref None and t2 = ref None in
           (* sub-groups: (keyspec, flags, desc, arguments in reverse order), latest first *)
-          let groups = ref [] in
+          let groups = ref [] and parents = ref [] and rawcmds = ref [] in
           let text spec =
             let pos = match spec.[0] with 'b' -> UBefore | 'a' -> UAfter | _ -> UUnused in
             Some (pos, bytes_of_hex (String.sub spec 2 (String.length spec - 2))) in
@@ -94,7 +94,7 @@ let () =
              List.iter (fun t ->
                  if starts "f=" t then flags := int_of_string (after "f=" t)
                  else if starts "w=" t then width := int_of_string (after "w=" t)
-                 else if starts "c=" t then cmds := List.map parse_cmd (split_on ',' (after "c=" t))
+                 else if starts "c=" t then (rawcmds := split_on ',' (after "c=" t); cmds := List.map parse_cmd !rawcmds)
                  else if starts "again=" t then again := int_of_string (after "again=" t)
                  else if starts "a:" t then
                    (match !groups with
@@ -102,7 +102,11 @@ let () =
                     | (k, fl, d, l) :: r -> groups := (k, fl, d, parse_arg t :: l) :: r)
                  else if starts "g:" t then
                    (match String.split_on_char ':' t with
-                    | [_; k; fl; d] -> groups := (k, int_of_string fl, bytes_of_hex d, []) :: !groups
+                    | [_; k; fl; d] -> groups := (k, int_of_string fl, bytes_of_hex d, []) :: !groups; parents := (-1) :: !parents
+                    | [_; k; fl; d; p] ->
+                        let p = int_of_string p in
+                        if p >= List.length !groups then raise (Setup "invalid_argument");
+                        groups := (k, int_of_string fl, bytes_of_hex d, []) :: !groups; parents := p :: !parents
                     | _ -> raise (Setup "invalid_argument"))
                  else if starts "t1=" t then t1 := text (after "t1=" t)
                  else if starts "t2=" t then t2 := text (after "t2=" t)) toks;
@@ -116,7 +120,25 @@ let () =
                  | Ok key -> { sg_key = key; sg_desc = d; sg_flags = n_of_int fl; sg_user = List.rev l }
                  | Err e -> raise (Setup (err_name e))
                  | Fault f -> raise (Setup (fault_name f))) !groups in
+             (* a help request with a path through sub-groups (any depth): Text/UsagePath.v *)
+             let nested = List.exists (fun p -> p >= 0) !parents in
+             let path_query = match !rawcmds with
+               | [c] when starts "ha=" c && List.exists (fun b -> int_of_n b = 47) (bytes_of_hex (after "ha=" c)) -> Some (bytes_of_hex (after "ha=" c))
+               | _ -> None in
+             if nested && path_query = None then raise (Setup "unsupported");
              let r =
+               if path_query <> None then begin
+                 if !again > 0 then raise (Setup "unsupported");
+                 let pgs = List.map2 (fun (k, fl, d, l) p ->
+                     match parse_key (bytes_of_string k) with
+                     | Ok key -> { pg_key = key; pg_desc = d; pg_flags = n_of_int fl; pg_user = List.rev l;
+                                   pg_parent = (if p < 0 then None else Some (nat_of_int p)) }
+                     | Err e -> raise (Setup (err_name e))
+                     | Fault f -> raise (Setup (fault_name f))) (List.rev !groups) (List.rev !parents) in
+                 match path_query with
+                 | Some q -> eval_case_path !t1 !t2 pgs (n_of_int !flags) (List.rev !args) q
+                 | None -> assert false
+               end else
                if sgs = [] && !again > 0 then
                  eval_case_again !t1 !t2 (n_of_int !flags) (nat_of_int !width) (List.rev !args) !cmds (nat_of_int !again)
                else if !again > 0 then raise (Setup "unsupported")
@@ -131,7 +153,9 @@ let () =
                     (show_digest (digest o)) (show_digest (digest e)) (hex_of_bytes o) (hex_of_bytes e)
               | Err e -> Printf.printf "%s err:%s ##\n" id (err_name e)
               | Fault f -> Printf.printf "%s fault:%s ##\n" id (fault_name f))
-           with Setup e -> Printf.printf "%s setup:%s ##\n" id e)
+           with Setup e ->
+             if e = "unsupported" then Printf.printf "%s unsupported ##\n" id
+             else Printf.printf "%s setup:%s ##\n" id e)
       | _ -> ()
     done
   with End_of_file -> ()
